@@ -76,13 +76,19 @@ def ob_continuous_low_precision():
         for lo, hi in ((0.0, 0.1), (-0.3, 1 / 3), (0.1, 0.7)):
             v = M.ContinuousVariable(name="c", lower_bound=lo, upper_bound=hi)
             for x in (np.float32(5.0), np.float32(-5.0), np.float16(5.0), np.float16(-5.0), np.float32(0.05), np.float32(hi),
-                      np.float32(lo)):
+                      np.float32(lo), np.array(5.0, dtype=np.float32), np.array(-5.0, dtype=np.float16),
+                      10 ** 400, -10 ** 400, np.int8(-100), np.uint8(200), True):          # (ints beyond the float range are finite too)
                 y = v.correct(x)
                 if type(y) is not float or not (lo <= y <= hi):
                     return Failure("continuous:low-precision-input-not-mapped-into-the-domain", x=repr(x), y=repr(y),
                                    bounds=[lo, hi])
                 if v.correct(y) != y:
                     return Failure("continuous:not-idempotent-on-low-precision-input", x=repr(x), y=repr(y))
+        d = M.DiscreteVariable(name="d", choices=list(range(2999)))          # 2998 is not a float16
+        for x in (np.float16(5e4), np.float16(-5e4), np.float32(1e9), 10 ** 400, -10 ** 400, np.uint8(200), np.float16(7.9)):
+            y = d.correct(x)
+            if type(y) is not int or not (0 <= y <= 2998) or d.correct(y) != y:
+                return Failure("discrete:low-precision-or-huge-input-not-mapped-into-the-domain", x=repr(x), y=repr(y))
         return OK
     return f
 
